@@ -20,6 +20,7 @@ All rights reserved.
 #include "simulator/http_server.hpp"
 
 #include <functional>
+#include <algorithm> // for min, max
 #include <cstdio> // for printf
 
 using namespace sim::asio;
@@ -195,6 +196,10 @@ namespace sim
 					// "-N": the last N bytes
 					start = size - std::stoll(last);
 				}
+				// a range reaching past either end of the content is cut down to
+				// the content there is
+				end = std::min(end, size);
+				start = std::max(std::min(start, end), std::int64_t(0));
 			}
 
 			std::string header = "Content-Range: bytes " + std::to_string(start)
